@@ -23,7 +23,7 @@ def gen_story(rng):
 
     def probe(p=0.35):
         if rng.random() < p:
-            sc.append(rng.choice([("cmd",), ("start",), ("cmd",)]))
+            sc.append(rng.choice([("cmd",), ("start",), ("cmd",), ("req",)]))
             md(0.5)
 
     def maybe_hop(a, p=0.3):
@@ -69,7 +69,7 @@ def gen_story(rng):
         md(0.9); probe(0.6)
         # established (or failed): traffic, commands, an ending
         for _ in range(rng.randrange(0, 4)):
-            sc.append(rng.choice([("cmd",), ("data", [H(SWITCH_STATE, tag=1)]), ("data", [H(PING_REQ)]), ("adv_next",), ("finish", 0), ("start",)])); md(0.6)
+            sc.append(rng.choice([("cmd",), ("req",), ("req",), ("data", [H(SWITCH_STATE, tag=1)]), ("data", [H(10)]), ("data", [H(PING_REQ)]), ("adv_next",), ("finish", 0), ("start",)])); md(0.6)
         end = rng.choice([("data", [H(DISC_REQ)]), ("eof",), ("lost", "R.Reset"), ("force",), ("disc",), ("wfail", 1), ("data", [("bp", 0)]), None])
         if end:
             maybe_hop(end); md(0.7)
@@ -107,6 +107,10 @@ def windows():
         for hops in (0, 1):
             story(est + [("hop", hops, ("data", [H(SWITCH_STATE, tag=1)])), ("hop", hops, cause), ("hop", hops, ("cmd",))] + [("drain",)] + again)
     story(est + [("cmd",), ("start",), ("finish", 0), ("drain",), ("cmd",), ("start",)])
+    for cause in (("eof",), ("lost", "R.Reset"), ("data", [H(DISC_REQ)]), ("force",)):
+        story(est + [("req",), ("drain",), ("data", [H(10)]), cause, ("drain",)] + again)                      # response and loss in one turn
+        story(est + [("req",), ("req",), ("drain",), ("hop", 0, ("data", [H(10)])), ("hop", 0, cause), ("drain",)] + again)
+        story(est + [("req",), ("drain",), cause, ("drain",), ("req",)] + again)
     story([("cmd",), ("finish", 0), ("disc",), ("force",), ("drain",)] + again)
     return out
 
@@ -133,6 +137,11 @@ def predicate(tr, story):
     steps = [(l, *split_cl(p), list(o)) for l, p, o in tr.steps]
     for i, (label, p, cl, obs) in enumerate(steps):
         pj, clj = (steps[i - 1][1], steps[i - 1][2]) if i else (connfamily.parse_proj(clienttrace.INIT_PROJ), 0)
+        if label.startswith("call:") and not (clj == 1 and pj["cs"] == "CONN"):
+            if not any(o in ("XNC", "XNR") or o.startswith("TC") for o in obs):
+                v.append(("C19/request-not-refused", f"request issued in state {pj['cs']} (client has connection: {clj}) was not refused", i))
+            if any(o.startswith("W") for o in obs):
+                v.append(("C19/request-wrote", "request issued with no live session wrote to the device", i))
         if label == "ccmd":
             alive = clj == 1 and pj["cs"] == "CONN"
             wrote = [o for o in obs if o.startswith("W")]
